@@ -760,6 +760,7 @@ func runDocCase(c dCase) dEvent {
 			return
 		}
 		ev.Det = dDet{AllSame: true, PermSame: true}
+		kept := append([]byte{}, payload...) // what the caller was given, byte for byte
 		for i := 1; i < c.Var.Reps; i++ {
 			again, err := jsonapi.MarshalDocument(doc, url)
 			if err != nil || !bytes.Equal(again, payload) {
@@ -810,7 +811,14 @@ func runDocCase(c dCase) dEvent {
 				names[i], names[j] = names[j], names[i]
 			}
 		}
-		if again, err := jsonapi.MarshalDocument(doc, url); err != nil || !bytes.Equal(again, payload) {
+		// the bytes handed out first are the caller's: marshaling something else later leaves them alone
+		if other, url3, _ := newDocWorld(c.Var, c.Seed).build(dDoc{Kind: "errors", NErrors: 2, Coll: "none"}); other != nil {
+			_, _ = jsonapi.MarshalDocument(other, url3)
+			if !bytes.Equal(payload, kept) {
+				ev.Det.AllSame = false
+			}
+		}
+		if again, err := jsonapi.MarshalDocument(doc, url); err != nil || !bytes.Equal(again, kept) {
 			ev.Det.PermSame = false
 			if os.Getenv("VERIF_DEBUG") != "" {
 				fmt.Fprintf(os.Stderr, "FIRST %s\nAGAIN %s\n", payload, again)
